@@ -99,7 +99,7 @@ ASSUMPTIONS = [
     'confirmed by a second run alone with a 3x budget',
     'memory blow-up is out of scope unless it shows as a time-out (MemoryError under the 2 GB cap is an allowed error)',
     'reference resolution (get_resolved_res_configs / get_app_name) is only exercised on ids whose reference graph is '
-    'acyclic and whose tree expansion is <= 5000 nodes (cycles belong to C29)',
+    'acyclic and whose tree expansion is <= 5000 nodes, 40000 nodes over all ids of one table (cycles belong to C29)',
     'PBT finds hangs, it cannot establish termination',
     'seed files come from vf/gen writers (trusted to be well-formed) and tests/data',
 ]
@@ -145,6 +145,7 @@ def t_dex(data):
     d = dex.DEX(data)
     FLAGS['constructed'] = 1
     cls = _try(d.get_classes) or []
+    FLAGS['dex.classes'] = len(cls)
     for c in cls[:64]:
         _try(c.get_name)
         _try(c.get_superclassname)
@@ -154,6 +155,7 @@ def t_dex(data):
         _try(mi.get_class_name)
         _try(mi.get_descriptor)
     ms = _try(d.get_encoded_methods) or []
+    FLAGS['dex.emethods'] = len(ms)
     for m in ms[:48]:
         _try(m.get_name)
         _try(m.get_descriptor)
@@ -179,7 +181,7 @@ def t_dex(data):
     for f in ((_try(d.get_fields) or [])[:64] + (_try(d.get_encoded_fields) or [])[:64]):
         _try(f.get_name)
         _try(f.get_descriptor)
-    _try(d.get_strings)
+    FLAGS['dex.strings'] = len(_try(d.get_strings) or ())
 
 
 def t_axml(data):
@@ -192,6 +194,7 @@ def t_axml(data):
 
 
 RESOLVE_NODE_CAP = 5000
+RESOLVE_TOTAL_CAP = 40000
 
 
 def _resolve_plan(a):
@@ -262,7 +265,7 @@ def _resolve_plan(a):
                 cost[rid] = BAD
                 changed = True
     allowed = {rid for rid in ids if cost.get(rid, BAD) <= RESOLVE_NODE_CAP}
-    return ids, allowed
+    return ids, allowed, cost
 
 
 def _arsc_queries(a):
@@ -278,7 +281,7 @@ def _arsc_queries(a):
     _try(a.get_strings_resources)
     _try(a.get_resolved_strings)
     try:
-        ids, allowed = _resolve_plan(a)
+        ids, allowed, cost = _resolve_plan(a)
     except MemoryError:
         raise
     except Exception:
@@ -286,13 +289,20 @@ def _arsc_queries(a):
         return
     FLAGS['ids'] = len(ids)
     FLAGS['resolve_skipped'] = len(ids) - len(allowed)
+    total = 0
     for rid in ids[:1500]:
         if not rid:
             continue
         _try(a.get_res_configs, rid)
         _try(a.get_resource_xml_name, rid)
         if rid in allowed:
-            _try(a.get_resolved_res_configs, rid)
+            # the sum over the queried ids is bounded too: a chain of n references costs n + (n-1) + ... - the queries
+            # of the harness, not the parser, would be quadratic in the size of the input
+            total += cost[rid]
+            if total <= RESOLVE_TOTAL_CAP:
+                _try(a.get_resolved_res_configs, rid)
+            else:
+                FLAGS['resolve_total_capped'] = FLAGS.get('resolve_total_capped', 0) + 1
     return allowed
 
 
@@ -314,6 +324,7 @@ def t_apk(data):
                a.get_declared_permissions, a.get_uses_implied_permission_list, a.is_multidex, a.get_dex_names,
                a.get_android_manifest_xml):
         _try(fn)
+    FLAGS['apk.files'] = len(_try(a.get_files) or ())
     def alldex():
         for i, _ in enumerate(a.get_all_dex()):
             if i > 8:
@@ -386,6 +397,46 @@ def _install_spies():
             f.seek(cur)
             raise
     dex.read_null_terminated_string = read_null_terminated_string
+    # measurement only ('wide' labels): how large were the per-structure counts the parsers' main loops really saw -
+    # attributes of one element / open elements / namespace mappings in scope / pull events (AXML), entries, type
+    # chunks and configurations (ARSC), map items (DEX), signing-block pairs and signers (APK)
+    orig_next = axml.AXMLParser.__next__
+
+    def __next__(self):
+        ev = orig_next(self)
+        FLAGS['x.events'] = FLAGS.get('x.events', 0) + 1
+        if ev == axml.START_TAG:
+            d = FLAGS['x.depth'] = FLAGS.get('x.depth', 0) + 1
+            if d > FLAGS.get('x.maxdepth', 0):
+                FLAGS['x.maxdepth'] = d
+            na = len(self.m_attributes) // 5
+            if na > FLAGS.get('x.maxattrs', 0):
+                FLAGS['x.maxattrs'] = na
+            FLAGS['x.tags'] = FLAGS.get('x.tags', 0) + 1
+        elif ev == axml.END_TAG:
+            FLAGS['x.depth'] = FLAGS.get('x.depth', 0) - 1
+        nn = len(self.namespaces)
+        if nn > FLAGS.get('x.maxns', 0):
+            FLAGS['x.maxns'] = nn
+        return ev
+    axml.AXMLParser.__next__ = __next__
+    wrap(axml.ARSCResTableEntry, '__init__', 'r.entries')
+    wrap(axml.ARSCResType, '__init__', 'r.types')
+    wrap(axml.ARSCResTypeSpec, '__init__', 'r.specs')
+    wrap(axml.ARSCResTablePackage, '__init__', 'r.packages')
+    wrap(dex.MapItem, 'parse', 'dex.mapitems')
+    wrap(apk.APKV2SignatureBlock, '__init__', 'apk.pairs')
+    wrap(apk.APKV2Signer, '__init__', 'apk.signers')       # APKV3Signer.__init__ calls it too
+    orig_recs = apk.APK.parse_signatures_or_digests
+
+    def parse_signatures_or_digests(self, *a, **k):
+        out = orig_recs(self, *a, **k)
+        try:
+            FLAGS['apk.records'] = max(FLAGS.get('apk.records', 0), len(out))
+        except TypeError:
+            pass
+        return out
+    apk.APK.parse_signatures_or_digests = parse_signatures_or_digests
     dex.MapList._c35_spy = True
 
 
@@ -807,6 +858,7 @@ def evaluate(ctx, target, data, labels=(), origin=None, record=True, res=None):
         if out.startswith('exc:'):
             lab.append('%s:%s' % (target, out))
         lab += tail_labels(res.get('flags', {}))
+        lab += wide_labels(target, res.get('flags', {}))
         ctx.case(nontrivial=nt, key=target.encode() + b'\0' + data, labels=lab,
                  sample={'target': target, 'len': len(data), 'origin': origin, 'outcome': out,
                          'cpu_s': res.get('cpu'), 'head': data[:24].hex()})
@@ -1745,15 +1797,19 @@ def _strip_tail_padding(data):
     return bytes(b)
 
 
-def inner_apk(fmt, payload):
-    """package a mutated manifest / resource table / dex into an otherwise valid zip (independent writer)"""
+def inner_apk(fmt, payload, stored=False):
+    """package a mutated manifest / resource table / dex into an otherwise valid zip (independent writer). stored: the
+    payload is not compressed (wide payloads are very regular: deflate would shrink them - and with them the budget,
+    which follows the length of the input - by two orders of magnitude while the parse still sees every item)"""
     from vf.gen import zipgen, arscgen
     if fmt == 'axml':
-        return zipgen.build_apk([('resources.arsc', arscgen.build(arscgen.simple_table()), zipgen.STORED)],
-                                manifest=payload)
+        rest = [('resources.arsc', arscgen.build(arscgen.simple_table()), zipgen.STORED)]
+        if stored:
+            return zipgen.build_apk([(zipgen.MANIFEST_NAME, payload, zipgen.STORED)] + rest)
+        return zipgen.build_apk(rest, manifest=payload)
     if fmt == 'arsc':
         return zipgen.build_apk([('resources.arsc', payload, zipgen.STORED)], manifest=_manifest_with_refs())
-    return zipgen.build_apk([('classes.dex', payload, zipgen.DEFLATED)])
+    return zipgen.build_apk([('classes.dex', payload, zipgen.STORED if stored else zipgen.DEFLATED)])
 
 
 _MREF = []
@@ -1769,6 +1825,496 @@ def _manifest_with_refs():
                 children=[A.E('activity', attrs=[A.a_str('name', '.Main', with_resid=True)])])])
         _MREF.append(A.build_axml(root))
     return _MREF[0]
+
+
+# =====================================================================================================
+# wide seeds: ONE structure with thousands of items (a per-structure count is the only large thing in the input)
+# =====================================================================================================
+# Every per-structure count a parser loops over gets inputs in which that count is 1 200 / 2 500 / 5 000 / 20 000 while
+# everything else stays minimal, so that anything super-linear in the count, or any pool / table of fixed size that is
+# exhausted by it, shows against the same budget as everything else (max(5 s, 2 ms x len): the items are really
+# present in the bytes, so the budget grows with them - linearly). Built with the independent writers where they can
+# express the shape and byte by byte where they cannot (string indices outside the pool, repeated map items, ...).
+# A seed = {'fmt', 'name', 'shape', 'n', 'data', 'arrays'}; arrays = [{'start', 'stride', 'count', 'fields' (offsets of
+# u32 fields inside an item), 'count_at' ((offset, width) of the declared count) | None, 'pool' (strings in the pool the
+# fields index)}] describe where the wide structure sits, for the wide mutations.
+WIDE_N = (1200, 2500, 5000, 20000)
+NOE = 0xffffffff
+
+
+def _w(fmt, shape, n, data, arrays=()):
+    return {'fmt': fmt, 'name': 'wide:%s:%d' % (shape, n), 'shape': shape, 'n': n, 'data': bytes(data),
+            'arrays': [dict(a) for a in arrays]}
+
+
+def _xn(t, ext, line=1):
+    return struct.pack('<HHIII', t, 16, 16 + len(ext), line, NOE) + ext
+
+
+def _xattr(ns, name, raw, typ, data):
+    return struct.pack('<IIIHBBI', ns, name, raw, 8, 0, typ, data & 0xffffffff)
+
+
+def _xstart(ns, name, attrs=(), asize=20):
+    return _xn(0x0102, struct.pack('<IIHHHHHH', ns, name, 20, asize, len(attrs) & 0xffff, 0, 0, 0) + b''.join(attrs))
+
+
+def _xend(ns, name):
+    return _xn(0x0103, struct.pack('<II', ns, name))
+
+
+def _xns(t, prefix, uri):
+    return _xn(t, struct.pack('<II', prefix, uri))
+
+
+def _xdoc(strings, body, resmap=(), utf8=False):
+    """-> (document bytes, offset of `body` in it)"""
+    from vf.gen import axmlgen as A
+    sp = A.string_pool(strings, utf8)
+    rm = (struct.pack('<HHI', 0x0180, 8, 8 + 4 * len(resmap)) + struct.pack('<%dI' % len(resmap), *resmap)) if resmap else b''
+    return struct.pack('<HHI', 0x0003, 8, 8 + len(sp) + len(rm) + len(body)) + sp + rm + body, 8 + len(sp) + len(rm)
+
+
+def wide_axml(n, full=True, only=None):
+    from vf.gen import axmlgen as A
+    out = []
+
+    def add(seed):
+        if only is None or seed['shape'] in only:
+            out.append(seed)
+
+    def attrs(shape, strings, names, en=0, resmap=(), ns=NOE, typ=0x10, raws=None, pre=b'', post=b'', utf8=False):
+        if only is not None and 'attrs:' + shape not in only:
+            return
+        ab = [_xattr(ns, names[i], raws[i] if raws else NOE, typ, raws[i] if raws else i) for i in range(n)]
+        data, off = _xdoc(strings, pre + _xstart(NOE, en, ab) + _xend(NOE, en) + post, resmap, utf8)
+        off += len(pre)
+        add(_w('axml', 'attrs:' + shape, n, data, [
+            {'what': 'attr', 'start': off + 36, 'stride': 20, 'count': n, 'fields': (4, 0, 8, 16), 'count_at': (off + 28, 2),
+             'pool': len(strings)}]))
+    # attribute name index: outside the pool (no string, no resource id -> a generated name), absent, valid ...
+    attrs('name-noentry', ['e'], [NOE] * n)
+    attrs('name-oob', ['e'], [1 + i for i in range(n)])
+    attrs('name-oob-equal', ['e'], [7] * n)
+    attrs('name-empty-string', ['e', ''], [1] * n)
+    attrs('name-valid', ['e'] + ['a%d' % i for i in range(n)], [1 + i for i in range(n)], utf8=True)
+    attrs('name-equal', ['e', 'a'], [1] * n)
+    # names through the resource map: unknown system ids with blanked pool names; known public ids (36 of them, repeated)
+    if full or n <= 5000:          # lxml's attribute set is quadratic in the number of distinct names (9 s at 20 000)
+        attrs('name-resmap-unknown', [''] * n + ['e'], list(range(n)), en=n, resmap=[0x01019000 + i for i in range(n)], utf8=True)
+    known = sorted(A.ANDROID_ATTR_IDS.items(), key=lambda kv: kv[1])
+    k = len(known)
+    attrs('name-resmap-known', [nm for nm, _ in known] + ['e', 'android', A.NS_ANDROID], [i % k for i in range(n)], en=k,
+          resmap=[rid for _, rid in known], ns=k + 2, pre=_xns(0x0100, k + 1, k + 2), post=_xns(0x0101, k + 1, k + 2))
+    if full:
+        attrs('value-strings', ['e'] + ['a%d' % i for i in range(n)] + ['v%d' % i for i in range(n)],
+              [1 + i for i in range(n)], typ=0x03, raws=[1 + n + i for i in range(n)])
+        attrs('value-oob-strings', ['e', 'a'], [1] * n, typ=0x03, raws=[2 + i for i in range(n)])
+        attrs('ns-oob', ['e'], [NOE] * n, ns=5)
+    # n children / text chunks / root-level siblings
+    child = _xstart(NOE, 1, [_xattr(NOE, 2, NOE, 0x10, 1)]) + _xend(NOE, 1)
+    data, off = _xdoc(['r', 'c', 'a', 't'], _xstart(NOE, 0) + child * n + _xend(NOE, 0))
+    add(_w('axml', 'children', n, data, [{'start': off + 36, 'stride': len(child), 'count': n, 'fields': (20, 40, 52),
+                                                 'count_at': None, 'pool': 4}]))
+    text = _xn(0x0104, struct.pack('<IHBBI', 3, 8, 0, 0, 0))
+    data, off = _xdoc(['r', 'c', 'a', 't'], _xstart(NOE, 0) + text * n + _xend(NOE, 0))
+    add(_w('axml', 'text-chunks', n, data, [{'start': off + 36, 'stride': len(text), 'count': n, 'fields': (16,),
+                                                    'count_at': None, 'pool': 4}]))
+    if full:
+        data, off = _xdoc(['r', 'c', 'a', 't'], child * n)
+        add(_w('axml', 'root-siblings', n, data, [{'start': off, 'stride': len(child), 'count': n, 'fields': (20, 40),
+                                                          'count_at': None, 'pool': 4}]))
+    # n namespace mappings in scope: distinct / all the same pair / never closed / closed without having been opened
+    strs = ['r'] + ['p%d' % i for i in range(n)] + ['urn:u%d' % i for i in range(n)]
+    sns = b''.join(_xns(0x0100, 1 + i, 1 + n + i) for i in range(n))
+    ens = b''.join(_xns(0x0101, 1 + i, 1 + n + i) for i in reversed(range(n)))
+    root = _xstart(NOE, 0, [_xattr(1 + n, 0, NOE, 0x10, 1)]) + _xend(NOE, 0)
+    nsarr = lambda off: [{'start': off, 'stride': 24, 'count': n, 'fields': (16, 20), 'count_at': None, 'pool': len(strs)}]
+    if full or n <= 5000:
+        data, off = _xdoc(strs, sns + root + ens, utf8=True)
+        add(_w('axml', 'ns:distinct', n, data, nsarr(off)))
+    data, off = _xdoc(strs, _xns(0x0100, 1, 1 + n) * n + root + _xns(0x0101, 1, 1 + n) * n, utf8=True)
+    add(_w('axml', 'ns:equal', n, data, nsarr(off)))
+    if full:
+        data, off = _xdoc(strs, sns + root, utf8=True)
+        add(_w('axml', 'ns:unclosed', n, data, nsarr(off)))
+        data, off = _xdoc(strs, root + ens, utf8=True)
+        add(_w('axml', 'ns:ends-only', n, data, nsarr(off + len(root))))
+    # nesting depth n (RecursionError is an allowed outcome), without and with one namespace declaration per level
+    data, off = _xdoc(['e'], _xstart(NOE, 0) * n + _xend(NOE, 0) * n)
+    add(_w('axml', 'nested', n, data, [{'start': off, 'stride': 36, 'count': n, 'fields': (16, 20), 'count_at': None,
+                                               'pool': 1}]))
+    if n <= (2500 if full else 1200):
+        # one namespace declaration per level: AXMLPrinter hands the whole mapping in scope to every lxml element, whose
+        # cost grows with depth x mappings (measured on the unchanged tree: ~n^3 - 5 s at 1 200, 9 min at 5 000 levels,
+        # still inside 2 ms/byte there), so only the small counts are affordable
+        lvl = [_xns(0x0100, 1 + i, 1 + n + i) + _xstart(NOE, 0) for i in range(n)]
+        unl = [_xend(NOE, 0) + _xns(0x0101, 1 + i, 1 + n + i) for i in reversed(range(n))]
+        data, off = _xdoc(strs, b''.join(lvl) + b''.join(unl), utf8=True)
+        add(_w('axml', 'nested+ns', n, data, [{'start': off, 'stride': 60, 'count': n, 'fields': (16, 20, 44),
+                                                      'count_at': None, 'pool': len(strs)}]))
+    # n resource ids / n pool strings / n chunks that are skipped
+    data, off = _xdoc(['a', 'e'], _xstart(NOE, 1, [_xattr(NOE, 0, NOE, 0x10, 1)]) + _xend(NOE, 1),
+                      resmap=[0x01010000 + i for i in range(n)])
+    add(_w('axml', 'resmap-entries', n, data, [{'start': off - 4 * n, 'stride': 4, 'count': n, 'fields': (0,),
+                                                       'count_at': None, 'pool': 2}]))
+    for utf8 in ((True, False) if full else (True,)):
+        data, off = _xdoc(['e'] + ['s%d' % i for i in range(n)], _xstart(NOE, 0) + _xend(NOE, 0), utf8=utf8)
+        add(_w('axml', 'pool-strings:' + ('utf8' if utf8 else 'utf16'), n, data, [
+            {'start': 8 + 28, 'stride': 4, 'count': n + 1, 'fields': (0,), 'count_at': (16, 4), 'pool': n + 1}]))
+    junk = struct.pack('<HHI', 0x0777, 8, 8)
+    data, off = _xdoc(['e'], junk * n + _xstart(NOE, 0) + _xend(NOE, 0))
+    add(_w('axml', 'skipped-chunks', n, data, [{'start': off, 'stride': 8, 'count': n, 'fields': (4,), 'count_at': None,
+                                                       'pool': 1}]))
+    if full:
+        rm0 = struct.pack('<HHII', 0x0180, 8, 12, 0x01010003)
+        data, off = _xdoc(['e'], rm0 * n + _xstart(NOE, 0) + _xend(NOE, 0))
+        add(_w('axml', 'resmap-chunks', n, data, [{'start': off, 'stride': 12, 'count': n, 'fields': (4, 8),
+                                                          'count_at': None, 'pool': 1}]))
+    return out
+
+
+def _arsc_arrays(data, layout, n):
+    """the offset and entry arrays of the largest type chunk / the chunk sequence when there are >= n type chunks"""
+    arr = []
+    types = [(off, size) for (off, size, kind) in layout if _u16(data, off) == 0x0201]
+    if types:
+        off, size = max(types, key=lambda x: x[1])
+        hs, ec, es = _u16(data, off + 2), _u32(data, off + 12), _u32(data, off + 16)
+        if ec and ec >= n // 2:
+            arr.append({'start': off + hs, 'stride': 4, 'count': ec, 'fields': (0,), 'count_at': (off + 12, 4), 'pool': ec})
+            arr.append({'start': off + es, 'stride': 16, 'count': (size - es) // 16, 'fields': (4, 12, 0, 8),
+                        'count_at': (off + 12, 4), 'pool': ec})
+        if len(types) >= n // 2 and len({sz for _, sz in types}) == 1:
+            arr.append({'start': types[0][0], 'stride': types[0][1], 'count': len(types), 'fields': (4, 12, 16, 8),
+                        'count_at': None, 'pool': len(types)})
+    specs = [(off, size) for (off, size, kind) in layout if _u16(data, off) == 0x0202]
+    if specs:
+        off, size = max(specs, key=lambda x: x[1])
+        if (size - 16) // 4 >= n // 2:
+            arr.append({'start': off + 16, 'stride': 4, 'count': (size - 16) // 4, 'fields': (0,), 'count_at': (off + 12, 4),
+                        'pool': n})
+    return arr
+
+
+def wide_arsc(n, full=True, only=None):
+    from vf.gen import arscgen as R
+    out = []
+    d = R.make_config()
+
+    def tab(types, **kw):
+        t = {'utf8': True, 'pool_extra': [], 'packages': [{'id': 0x7f, 'name': 'w', 'types': types}]}
+        t.update(kw)
+        return t
+
+    def add(shape, table, m=n):
+        if only is not None and shape not in only:
+            return
+        lay = []
+        try:
+            data = R.build(table, layout=lay)
+        except (ValueError, struct.error, OverflowError):
+            return                        # the writer cannot express this size (16-bit offsets ...)
+        out.append(_w('arsc', shape, m, data, _arsc_arrays(data, lay, m)))
+
+    def plain(i, v=None):
+        return {'kind': 'plain', 'key': 'k%d' % i, 'value': v or [R.TYPE_INT_DEC, i]}
+    for offs in (('32', '16', 'sparse') if full else ('32', 'sparse')):
+        if offs != '32' and n > 5000:
+            continue
+        add('entries:' + offs, tab([{'name': 'integer', 'entry_count': n, 'chunks': [
+            {'config': d, 'offsets': offs, 'entries': [[i, plain(i)] for i in range(n)]}]}]))
+    add('entries:strings', tab([{'name': 'string', 'entry_count': n, 'chunks': [
+        {'config': d, 'offsets': '32', 'entries': [[i, plain(i, [R.TYPE_STRING, 'v%d' % i])] for i in range(n)]}]}]))
+    add('entries:one-key', tab([{'name': 'integer', 'entry_count': n, 'chunks': [
+        {'config': d, 'offsets': '32', 'entries': [[i, {'kind': 'compact', 'key': 'k', 'value': [R.TYPE_INT_DEC, i & 0xffff]}]
+                                                   for i in range(n)]}]}]))
+    add('entries:complex', tab([{'name': 'array', 'entry_count': n, 'chunks': [
+        {'config': d, 'offsets': '32', 'entries': [[i, {'kind': 'complex', 'key': 'k%d' % i, 'parent': 0, 'items': [
+            [0x02000000, [R.TYPE_INT_DEC, i]], [0x02000001, [R.TYPE_INT_DEC, 1]]]}] for i in range(n)]}]}]))
+    add('bag-items', tab([{'name': 'array', 'entry_count': 1, 'chunks': [
+        {'config': d, 'offsets': '32', 'entries': [[0, {'kind': 'complex', 'key': 'k', 'parent': 0, 'items': [
+            [0x02000000 + i, [R.TYPE_INT_DEC, i]] for i in range(n)]}]]}]}]))
+    add('entries:holes', tab([{'name': 'integer', 'entry_count': n, 'chunks': [
+        {'config': d, 'offsets': '32', 'entries': [[0, plain(0)], [n - 1, plain(1)]]}]}]))
+    # n configurations of one entry (n type chunks): densities / locales
+    if n <= 5000:
+        add('configs:density', tab([{'name': 'integer', 'entry_count': 1, 'chunks': [
+            {'config': R.make_config(density=1 + i), 'offsets': '32', 'entries': [[0, plain(0)]]} for i in range(n)]}]))
+
+        def loc(i):
+            lang = chr(97 + i % 26) + chr(97 + (i // 26) % 26)
+            return R.make_config(language=lang, country=(chr(65 + (i // 676) % 26) * 2 if i >= 676 else ''))
+        add('configs:locale', tab([{'name': 'string', 'entry_count': 1, 'chunks': [
+            {'config': loc(i), 'offsets': '32', 'entries': [[0, plain(0, [R.TYPE_STRING, 'v%d' % i])]]} for i in range(n)]}]))
+    if n == WIDE_N[0]:
+        # ResTable_typeSpec::id is one byte: 255 types is the widest package
+        add('types', tab([{'name': 't%d' % i, 'entry_count': 1, 'chunks': [
+            {'config': d, 'offsets': '32', 'entries': [[0, plain(i)]]}]} for i in range(255)]), 255)
+    add('pool-strings', tab([{'name': 'integer', 'entry_count': 1, 'chunks': [
+        {'config': d, 'offsets': '32', 'entries': [[0, plain(0)]]}]}], pool_extra=['s%d' % i for i in range(n)]))
+    t = tab([{'name': 'integer', 'entry_count': 1, 'chunks': [{'config': d, 'offsets': '32', 'entries': [[0, plain(0)]]}]}])
+    t['packages'][0]['keys_extra'] = ['x%d' % i for i in range(n)]
+    add('key-strings', t)
+    if n <= 2500:
+        # a reference chain of length n (resolution is recursive: RecursionError is an allowed outcome)
+        add('ref-chain', tab([{'name': 'string', 'entry_count': n, 'chunks': [{'config': d, 'offsets': '32', 'entries': [
+            [i, plain(i, [R.TYPE_REFERENCE, R.resid(0x7f, 1, i + 1)] if i + 1 < n else [R.TYPE_STRING, 'end'])]
+            for i in range(n)]}]}]))
+    # n package chunks (the writer allows 255 distinct ids: the chunk of a one-entry package is repeated instead)
+    one = R.build(tab([{'name': 'integer', 'entry_count': 1, 'chunks': [
+        {'config': d, 'offsets': '32', 'entries': [[0, plain(0)]]}]}]))
+    gp = _u32(one, 12 + 4)
+    pk = one[12 + gp:]
+    for shape, cnt in ((('packages:repeated', n), ('packages:repeated:count1', 1)) if full else (('packages:repeated', n),)):
+        if n > 2500:
+            break
+        data = bytearray(one[:12 + gp] + pk * n)
+        struct.pack_into('<II', data, 4, len(data), cnt)
+        out.append(_w('arsc', shape, n, data, [{'start': 12 + gp, 'stride': len(pk), 'count': n, 'fields': (4, 8),
+                                                'count_at': (8, 4), 'pool': n}]))
+    return out
+
+
+def _dex_arrays(data, n):
+    arr = []
+    for (cnt_o, off_o, isz, fields) in ((0x38, 0x3c, 4, (0,)), (0x40, 0x44, 4, (0,)), (0x48, 0x4c, 12, (0, 4, 8)),
+                                        (0x50, 0x54, 8, (4, 0)), (0x58, 0x5c, 8, (4, 0)), (0x60, 0x64, 32, (0, 8, 12, 24, 28, 20))):
+        cnt, off = _u32(data, cnt_o), _u32(data, off_o)
+        if cnt and off and cnt >= n // 2 and off + cnt * isz <= len(data):
+            arr.append({'start': off, 'stride': isz, 'count': cnt, 'fields': fields, 'count_at': (cnt_o, 4),
+                        'pool': _u32(data, 0x38) or 0})
+    mo = _u32(data, 0x34)
+    if mo and mo + 4 <= len(data):
+        cnt = _u32(data, mo)
+        if cnt >= n // 2 and mo + 4 + 12 * cnt <= len(data):
+            arr.append({'start': mo + 4, 'stride': 12, 'count': cnt, 'fields': (8, 4, 0), 'count_at': (mo, 4), 'pool': len(data)})
+    return arr
+
+
+def wide_dex(n, full=True, only=None):
+    from vf.gen import dexgen as D
+    out = []
+    ret = bytes([0x0e, 0x00])
+
+    def tiny():
+        return D.Class('Lw/W;', vmethods=[D.Method('m', 'V', (), 1, D.Code(1, 1, 0, ret))])
+
+    def add(shape, classes, refs=(), **kw):
+        if only is not None and shape not in only:
+            return
+        if not full and n > 5000 and shape not in ('strings', 'types', 'field-ids', 'classes', 'class-methods'):
+            return                        # quick tier: the writer needs ~1 s per 20 000-item file
+        df = D.DexFile(classes, extra_refs=list(refs))
+        data = df.build(**kw)
+        out.append(_w('dex', shape, n, data, _dex_arrays(data, n)))
+    add('strings', [tiny()], [('s', 's%06d' % i) for i in range(n)])
+    add('types', [tiny()], [('t', 'Lw/T%d;' % i) for i in range(n)])
+    add('protos', [tiny()], [('p', 'V', ('I',) * (i % 5) + ('Lw/P%d;' % i,)) for i in range(n)])
+    add('field-ids', [tiny()], [('f', 'Lw/W;', 'f%d' % i, 'I') for i in range(n)])
+    add('method-ids', [tiny()], [('m', 'Lw/W;', 'm%d' % i, 'V', ()) for i in range(n)])
+    add('classes', [D.Class('Lw/C%d;' % i) for i in range(n)])
+    add('class-fields', [D.Class('Lw/W;', sfields=[D.Field('f%d' % i, 'I', 8) for i in range(n)],
+                                 static_values=[D.EV('int', i) for i in range(n)])])
+    add('class-methods', [D.Class('Lw/W;', vmethods=[D.Method('m%d' % i, 'V', (), 1, D.Code(1, 1, 0, ret))
+                                                      for i in range(n)])])
+    add('insns', [D.Class('Lw/W;', vmethods=[D.Method('m', 'V', (), 1, D.Code(1, 1, 0, bytes(2 * n) + ret))])])
+    m = min(n, 8000)                # encoded_catch_handler offsets are 16 bit
+    add('tries', [D.Class('Lw/W;', vmethods=[D.Method('m', 'V', (), 1, D.Code(
+        1, 1, 0, bytes(2 * m) + ret, tries=[(i, 1, i) for i in range(m)],
+        handlers=[([('Ljava/lang/Exception;', m)], None) for i in range(m)]))])])
+    add('interfaces', [D.Class('Lw/W;', interfaces=['Lw/I%d;' % i for i in range(n)])])
+    add('annotations', [D.Class('Lw/W;', annotations=[D.Annotation('Lw/A%d;' % i, [('v', D.EV('int', i))])
+                                                      for i in range(n)])])
+    if full:
+        add('strings:data-last', [tiny()], [('s', 's%06d' % i) for i in range(n)],
+            section_order=['type_list', 'code', 'annotation_item', 'annotation_set', 'annotations_directory', 'encoded_array',
+                           'class_data', 'map', 'string_data'])
+        add('params', [D.Class('Lw/W;', vmethods=[D.Method('m', 'V', ('I',) * n, 0x401)])])
+        add('annotation-elements', [D.Class('Lw/W;', annotations=[D.Annotation('Lw/A;', [
+            ('e%d' % i, D.EV('int', i)) for i in range(n)])])])
+        add('array-value', [D.Class('Lw/W;', sfields=[D.Field('a', '[I', 8)],
+                                    static_values=[D.EV('array', [D.EV('int', i) for i in range(n)])])])
+    # n more map items (the writer emits one per section): the header item / the first string_id_item again and again
+    base = D.DexFile([tiny()]).build()
+    mo = _u32(base, 0x34)
+    cnt = _u32(base, mo)
+    if mo + 4 + 12 * cnt == len(base):
+        for shape, item in (('map-items:header', struct.pack('<HHII', 0, 0, 1, 0)),
+                            ('map-items:string-id', struct.pack('<HHII', 1, 0, 1, _u32(base, 0x3c)))):
+            b = bytearray(base) + item * n
+            struct.pack_into('<I', b, mo, cnt + n)
+            struct.pack_into('<I', b, 0x20, len(b))
+            struct.pack_into('<I', b, 0x68, _u32(b, 0x68) + 12 * n)
+            data = bytes(fix_dex(b))
+            out.append(_w('dex', shape, n, data, _dex_arrays(data, n)))
+    return out
+
+
+def _wide_signer(v3, digests=1, certs=0, sigs=1, attrs=0, cert=b''):
+    s = {'digests': [[0x0103, bytes(32)] for _ in range(digests)], 'certs': [cert] * certs,
+         'attrs': [[0xbeeff00d, struct.pack('<I', 3)] for _ in range(attrs)],
+         'sigs': [[0x0103, b'\x01' * 8] for _ in range(sigs)], 'pubkey': b'\x30\x00'}
+    if v3:
+        s.update({'sd_min': 24, 'sd_max': 0x7fffffff, 'min': 24, 'max': 0x7fffffff})
+    return s
+
+
+def wide_apk(n, full=True, only=None):
+    from vf.gen import zipgen as Z, sigblock as S, axmlgen as A
+    out = []
+
+    def add(shape, data, arrays=()):
+        out.append(_w('apk', shape, n, data, arrays))
+    small = Z.build_apk([('classes.dex', _warm_files()[0][1], Z.DEFLATED)])
+    if n <= 5000 or full:
+        add('members', Z.build_apk([('res/f%05d' % i, b'x', Z.STORED) for i in range(n)]))
+    if n <= (2500 if full else 1200):
+        add('members:meta-inf', Z.build_apk([('META-INF/S%d.RSA' % i, b'\x30\x00', Z.STORED) for i in range(n)] +
+                                            [('META-INF/MANIFEST.MF', b'Manifest-Version: 1.0\r\n\r\n', Z.STORED)]))
+        add('members:dex', Z.build_apk([('classes%d.dex' % (i + 2), b'dex\n035\0', Z.STORED) for i in range(n)] +
+                                       [('classes.dex', _warm_files()[0][1], Z.STORED)]))
+
+    def signed(shape, pairs):
+        data = S.sign_zip(small, pairs)
+        blk = S.find_signing_block(data)
+        add('sig:' + shape, data, [{'start': blk['start'] + 8, 'stride': 12, 'count': n, 'fields': (8, 0, 4), 'count_at': None,
+                                    'pool': n}] if shape.startswith('pairs') else ())
+    v2 = {'id': S.V2_ID, 'signers': [_wide_signer(False)]}
+    signed('pairs', [{'id': 0x10000 + i, 'value': b''} for i in range(n)] + [v2])
+    signed('pairs:equal-id', [{'id': 0x504b4453, 'value': b''} for i in range(n)] + [v2])
+    for v3, pid in ((False, S.V2_ID), (True, S.V3_ID)) if full else ((False, S.V2_ID),):
+        nm = 'v3' if v3 else 'v2'
+        signed('signers:' + nm, [{'id': pid, 'signers': [_wide_signer(v3) for _ in range(n)]}])
+        signed('digests:' + nm, [{'id': pid, 'signers': [_wide_signer(v3, digests=n)]}])
+        signed('signatures:' + nm, [{'id': pid, 'signers': [_wide_signer(v3, sigs=n)]}])
+        signed('attributes:' + nm, [{'id': pid, 'signers': [_wide_signer(v3, attrs=n)]}])
+    if n <= 2500:
+        cert = S.load_fixtures()['ecp256']['cert']
+        signed('certificates:v2', [{'id': S.V2_ID, 'signers': [_wide_signer(False, certs=n, cert=cert)]}])
+        if full:
+            signed('certificates:v3', [{'id': S.V3_ID, 'signers': [_wide_signer(True, certs=n, cert=cert)]}])
+    # manifests with n permissions / n components (valid documents: the manifest queries walk them)
+    perms = [A.E('uses-permission', attrs=[A.a_str('name', 'android.permission.P%d' % i, with_resid=True)]) for i in range(n)]
+    add('manifest:permissions', Z.build_apk([(Z.MANIFEST_NAME, A.build_axml(A.manifest_root(
+        'com.example.wide', children=perms + [A.E('application')])), Z.STORED)]))
+    acts = [A.E('activity', attrs=[A.a_str('name', '.A%d' % i, with_resid=True)], children=[A.E('intent-filter', children=[
+        A.E('action', attrs=[A.a_str('name', 'android.intent.action.MAIN', with_resid=True)]),
+        A.E('category', attrs=[A.a_str('name', 'android.intent.category.LAUNCHER', with_resid=True)])])])
+        for i in range(n)]
+    if n <= 5000:
+        add('manifest:activities', Z.build_apk([(Z.MANIFEST_NAME, A.build_axml(A.manifest_root('com.example.wide', children=[
+            A.E('application', children=acts)])), Z.STORED)]))
+    return out
+
+
+WIDE_BUILDERS = {'axml': wide_axml, 'arsc': wide_arsc, 'dex': wide_dex, 'apk': wide_apk}
+# shapes of the inner formats that are also delivered through the APK front door
+WIDE_INNER = {'axml': ('attrs:name-noentry', 'attrs:name-oob', 'attrs:name-valid', 'children', 'ns:distinct', 'nested'),
+              'arsc': ('entries:32', 'configs:locale', 'bag-items'), 'dex': ('classes', 'strings')}
+
+
+def wide_seeds(fmt, tier, sizes=None):
+    """smallest counts first (a shape that times out is not tried at larger counts, see _run_wide)"""
+    full = tier != 'quick'
+    out = []
+    for n in (sizes or WIDE_N):
+        ws = WIDE_BUILDERS[fmt](n, full)
+        if fmt == 'apk':
+            for f, shapes in sorted(WIDE_INNER.items()):
+                if n > 5000 and not full:
+                    continue
+                for s in WIDE_BUILDERS[f](n, False, only=shapes):
+                    if s['shape'] in shapes:
+                        ws.append(_w('apk', 'inner-%s:%s' % (f, s['shape']), n, inner_apk(f, s['data'], stored=True)))
+        out += sorted(ws, key=lambda s: len(s['data']))
+    return out
+
+
+def wide_labels(target, flags):
+    """measured, not assumed: the counts the parsers' own loops saw (spies in the sandbox child)"""
+    lab = []
+    for key, name, steps in (('x.maxattrs', 'axml:wide:attrs', (1138, 5000, 20000)), ('x.tags', 'axml:wide:elements', (1000, 5000, 20000)),
+                             ('x.maxdepth', 'axml:wide:depth', (1000, 5000, 20000)), ('x.maxns', 'axml:wide:namespaces', (1000, 5000, 20000)),
+                             ('x.events', 'axml:wide:events', (1000, 5000, 20000)),
+                             ('r.entries', 'arsc:wide:entries', (1000, 5000, 20000)), ('r.types', 'arsc:wide:type-chunks', (1000, 5000)),
+                             ('r.specs', 'arsc:wide:typespecs', (255, 1000)), ('r.packages', 'arsc:wide:packages', (255, 1000, 5000)),
+                             ('dex.mapitems', 'dex:wide:map-items', (1000, 5000, 20000)), ('dex.strings', 'dex:wide:strings', (1000, 5000, 20000)),
+                             ('dex.classes', 'dex:wide:classes', (1000, 5000, 20000)), ('dex.emethods', 'dex:wide:encoded-methods', (1000, 5000, 20000)),
+                             ('apk.files', 'apk:wide:members', (1000, 5000, 20000)), ('apk.pairs', 'apk:wide:signing-block-pairs', (1000, 5000, 20000)),
+                             ('apk.signers', 'apk:wide:signers', (1000, 5000, 20000)),
+                             ('apk.records', 'apk:wide:digests-or-signatures', (1000, 5000, 20000))):
+        v = flags.get(key, 0)
+        for s_ in steps:
+            if v >= s_:
+                lab.append('%s>=%d' % (name, s_))
+    return lab
+
+
+WIDE_FILL = ['noentry', 'zero', 'oob-distinct', 'oob-equal', 'identity', 'reverse', 'huge', 'first-valid', 'last-valid']
+
+
+def wide_mutate(seed, kind, a, b_, c, post):
+    """one wide mutation (the wide structure stays wide): a field of every item / of a run of items rewritten with an
+    absent / out-of-pool / constant / permuted index, the declared count off by one / doubled / at the type's maximum
+    with the bytes unchanged, the input cut inside the array at / around item 1138 and in the middle, or one of the
+    general mutations (OPS) on top. -> (bytes, labels)"""
+    fmt = seed['fmt']
+    buf = bytearray(seed['data'])
+    arrs = seed['arrays']
+    labels = []
+    k = kind % 5
+    cut = False
+    if not arrs or k == 4:
+        pts = seed.get('pts')
+        if pts is None:
+            pts = seed['pts'] = SCAN[fmt](seed['data'])
+        buf, lab = apply_op(fmt, buf, pts, (a % len(OPS), b_, (b_ >> 7) ^ a, c))
+        labels.append('wide-op:general:' + lab)
+        cut = len(buf) != len(seed['data'])
+    else:
+        ar = arrs[a % len(arrs)]
+        start, stride, count = ar['start'], ar['stride'], ar['count']
+        if k == 3 and not ar.get('count_at'):
+            k = 0
+        if k in (0, 1):
+            fo = ar['fields'][0] if k == 0 else ar['fields'][(b_ >> 4) % len(ar['fields'])]
+            mode = WIDE_FILL[(b_ >> 8) % len(WIDE_FILL)]
+            sel = c % 4
+            first = (a >> 8) % count if sel in (1, 3) else 0
+            last = min(count, first + 1138 + (a >> 20) % 64) if sel == 3 else count
+            pool = ar.get('pool', count)
+            for i in range(first, last, 2 if sel == 2 else 1):
+                v = {'noentry': NOE, 'zero': 0, 'oob-distinct': pool + i, 'oob-equal': pool + 7, 'identity': i,
+                     'reverse': count - 1 - i, 'huge': 0x7fffffff - i, 'first-valid': 1, 'last-valid': max(0, pool - 1)}[mode]
+                p = start + i * stride + fo
+                if p + 4 <= len(buf):
+                    struct.pack_into('<I', buf, p, v & 0xffffffff)
+            labels.append('wide-op:fill:' + mode)
+        elif k == 2:
+            ks = [1137, 1138, 1139, count // 2, count - 1, count - 2, (a >> 8)]
+            item = ks[b_ % len(ks)] % max(1, count)
+            buf = buf[:max(1, start + item * stride + (0, 4, stride - 1, 1)[c % 4])]
+            labels.append('wide-op:cut-inside')
+            cut = True
+        else:
+            off, w = ar['count_at']
+            top = (1 << (8 * w)) - 1
+            vals = [count + 1, count * 2, count - 1, count // 2, 1138, 1137, top, top // 2 + 1, count + 1138, 0]
+            v = vals[b_ % len(vals)] & top
+            if off + w <= len(buf):
+                buf[off:off + w] = v.to_bytes(w, 'little')
+            labels.append('wide-op:declared-count')
+    if fmt == 'dex':
+        if post < 85:
+            buf = fix_dex(buf)
+            labels.append('dex:checksums-fixed')
+        else:
+            labels.append('dex:checksums-stale')
+    elif fmt in ('axml', 'arsc') and len(buf) >= 8 and (cut and post < 75):
+        struct.pack_into('<I', buf, 4, len(buf))
+        labels.append('res:outer-size-fixed')
+    return bytes(buf), labels
 
 
 # =====================================================================================================
@@ -1789,6 +2335,10 @@ TAIL_SHARDS = [('tail', 'axml', 'sys'), ('tail', 'arsc', 'sys'), ('tail', 'axml'
                ('tail', 'dex', 'sys')]
 
 
+# wide seeds (one structure with thousands of items): one shard per format, seeds built inside the worker
+WIDE_SHARDS = [('wide', 'apk'), ('wide', 'axml'), ('wide', 'arsc'), ('wide', 'dex')]
+
+
 def shards(tier, seed):
     # seeds are built here, in the parent: the pool workers (fork) inherit the cache
     for f in ('dex', 'axml', 'arsc', 'apk'):
@@ -1803,10 +2353,11 @@ def shards(tier, seed):
         sh = [('hyp', 'arsc', k) for k in range(3)] + [('sys', 'arsc')] + [('hyp', 'axml', k) for k in range(2)] + \
              [('hyp', 'dex', k) for k in range(4)] + [('sys', 'apk')] + TAIL_SHARDS + \
              [('sys', 'dex')] + [('hyp', 'apk', k) for k in range(3)] + [('sys', 'axml')]
+        sh = WIDE_SHARDS + sh
     else:
         sh = [('hyp', 'dex', k) for k in range(10)] + [('hyp', 'axml', k) for k in range(5)] + \
              [('hyp', 'arsc', k) for k in range(6)] + [('hyp', 'apk', k) for k in range(7)] + \
-             [('sys', f) for f in ('dex', 'axml', 'arsc', 'apk')] + TAIL_SHARDS + \
+             [('sys', f) for f in ('dex', 'axml', 'arsc', 'apk')] + TAIL_SHARDS + WIDE_SHARDS + \
              [('atheris', f, c) for f in ('dex', 'axml', 'arsc', 'apk') for c in ('seeded', 'empty')]
     only = os.environ.get('C35_ONLY')            # development aid: restrict to the shards of one format / kind
     if only:
@@ -1839,6 +2390,8 @@ def run_shard(ctx, shard):
             _run_atheris(ctx, shard[1], shard[2])
         elif kind == 'tail':
             _run_tail(ctx, shard[1], shard[2])
+        elif kind == 'wide':
+            _run_wide(ctx, shard[1])
         else:
             raise HarnessError('unknown shard %r' % (shard,))
     finally:
@@ -2234,6 +2787,97 @@ def _run_tail_dex(ctx, seeds, cap):
                      origin={'seed': s['name'], 'ops': 'tail-map count=%d rest=%d edit=%s fix=%d' % (count, rest, edit, fix_size)})
     if gens:
         ctx.count('tail_sys_budget_cut_docs:dex', len(gens))
+
+
+# -----------------------------------------------------------------------------------------------------
+# wide seeds
+# -----------------------------------------------------------------------------------------------------
+def _wide_cap(ctx):
+    try:
+        return float(os.environ['C35_WIDE_CAP_S'])
+    except (KeyError, ValueError):
+        return 45.0 if ctx.tier == 'quick' else 240.0
+
+
+def _run_wide(ctx, fmt):
+    """every wide seed unmodified, smallest counts first (a shape whose time-out was confirmed is not run at larger
+    counts: its budget grows with the input and the finding is already recorded), and drawn wide mutations on the seeds
+    up to 5 000 items: a few batches after each count, the rest of the budget at the end. The wall-clock cap bounds
+    the exploration only."""
+    cap = _wide_cap(ctx)
+    warm = [d for t, d in _warm_files() if t == fmt][0]
+    sandbox().run(fmt, warm, budget_for(len(warm)))
+    ctx.__dict__['_c35_t0'] = time.time()
+    timed_out = set()
+    pool = []
+    quick = ctx.tier == 'quick'
+    strat = st.tuples(st.integers(0, 0xffff), st.integers(0, 4), st.integers(0, 0xffffffff), st.integers(0, 0xffffffff),
+                      st.integers(0, 0xffff), st.integers(0, 99), st.integers(0, 11))
+    done = [0]
+
+    def fn(c, v):
+        si, kind, a, b_, cc, post, route = v
+        if _over_budget(ctx, cap):
+            c.count('budget_skipped')
+            return
+        seed = pool[si % len(pool)]
+        if seed['shape'] in timed_out:
+            return
+        data, labels = wide_mutate(seed, kind, a, b_, cc, post)
+        target = fmt
+        if fmt != 'apk' and route == 0 and len(data) <= 150 * 1024:
+            try:
+                data = inner_apk(fmt, data, stored=True)
+                target = 'apk'
+                labels.append('apk:inner-' + fmt)
+            except Exception:
+                c.count('inner_apk_not_packable')
+        res = evaluate(c, target, data, labels=labels + ['wide', 'wide:mutated', '%s:wide-seed:%s' % (fmt, seed['shape'])],
+                       origin={'seed': seed['name'], 'ops': ['wide', kind, a, b_, cc], 'post': post})
+        if nontrivial(target, res.get('flags', {})):
+            c.label('wide:reached')
+        if wide_labels(target, res.get('flags', {})):
+            c.label('wide:main-loop-saw-the-count')
+        if res['outcome'] == 'timeout':
+            timed_out.add(seed['shape'])
+
+    def mutations(batches, upto):
+        for _ in range(batches):
+            if not pool or _over_budget(ctx, upto):
+                return
+            hyp_collect(ctx, strat, fn, 40, salt=hash_salt(fmt, 70) * 1000 + done[0], shrink=False)
+            done[0] += 1
+    for n in WIDE_N:
+        if _over_budget(ctx, cap * 0.8):
+            ctx.count('wide_sizes_not_built:%s:%d' % (fmt, n))
+            continue
+        batch = wide_seeds(fmt, ctx.tier, sizes=(n,))
+        for s in batch:
+            if s['shape'] in timed_out:
+                ctx.count('wide_skipped_shape_already_timed_out')
+                continue
+            if _over_budget(ctx, cap):
+                ctx.count('wide_unmodified_budget_cut:' + fmt)
+                continue
+            res = evaluate(ctx, fmt, s['data'], labels=['wide', 'wide:unmodified', '%s:wide-seed:%s' % (fmt, s['shape']),
+                                                        'wide:n=%d' % s['n']],
+                           origin={'seed': s['name'], 'ops': 'none'})
+            ctx.count('wide_seeds:' + fmt)
+            ctx.count('wide_seed_bytes:' + fmt, len(s['data']))
+            if nontrivial(fmt, res.get('flags', {})):
+                ctx.label('wide:reached')
+            if wide_labels(fmt, res.get('flags', {})):
+                ctx.label('wide:main-loop-saw-the-count')
+            if res['outcome'] == 'timeout':
+                timed_out.add(s['shape'])
+            elif (n <= 5000 and len(s['data']) <= 400 * 1024 and res.get('cpu') is not None and res['cpu'] <= 1.0):
+                # mutation pool: cheap seeds (the few that the unchanged parsers need seconds for stay unmodified)
+                pool.append(s)
+        if n <= 5000:
+            mutations((8, 4, 4)[WIDE_N.index(n)] * (1 if quick else 6), cap * 0.8)
+    mutations(60 if quick else 600, cap)
+    if _over_budget(ctx, cap):
+        ctx.count('wide_budget_cut:' + fmt)
 
 
 # -----------------------------------------------------------------------------------------------------
